@@ -21,7 +21,29 @@ def find_module(prop):
     raise SystemExit("no check module for %s" % prop)
 
 
+def _scratch_root():
+    """ONE scratch root per run, owned by this (parent) process: pool workers leave through os._exit and never run their own clean-up, so every scratch directory a
+    worker makes lives under this root, which is removed when the run ends - however it ends"""
+    import atexit
+    import shutil
+    import signal
+    import tempfile
+    base = "/dev/shm" if os.path.isdir("/dev/shm") and os.access("/dev/shm", os.W_OK) else tempfile.gettempdir()
+    root = tempfile.mkdtemp(prefix="verif-run-", dir=base)
+    os.environ["VERIF_SCRATCH_ROOT"] = root
+    pid = os.getpid()
+
+    def clean(*a):
+        if os.getpid() == pid:
+            shutil.rmtree(root, ignore_errors=True)
+    atexit.register(clean)
+    for sig in (signal.SIGTERM, signal.SIGHUP):
+        signal.signal(sig, lambda n, f: (clean(), os._exit(143)))
+    return root
+
+
 def main():
+    _scratch_root()
     ap = argparse.ArgumentParser()
     ap.add_argument("prop", nargs="?")
     ap.add_argument("--tier", default=os.environ.get("VERIF_TIER", "quick"), choices=["quick", "thorough"])
